@@ -86,7 +86,7 @@ func (s *subscriberServer) ListSnapshots(
 	var resp *pubsubpb.ListSnapshotsResponse
 	err := s.client.DoTx(ctx, nil, func(tx *ent.Tx) error {
 		predicates := []predicate.Snapshot{
-			snapshot.NameHasPrefix(projectSubscriptionPrefix(req.Project)),
+			snapshot.NameHasPrefix(projectSnapshotPrefix(req.Project)),
 		}
 		if req.PageToken != "" {
 			pageID, err := uuid.Parse(req.PageToken)
